@@ -550,11 +550,18 @@ def r8_which_files_are_test_files(ctx, rep, R='C14.R8'):
     nested = {n.name: n for n in ast.walk(fi.node) if isinstance(n, ast.FunctionDef) and n is not fi.node}
     # recording sites: calls of a nested recorder, or stores into a dict, inside a loop over the files
     sites = []
+    # the listing of file names: third element of the walk step
+    FILES, DIRNAME = set(), set()
+    for lp in ast.walk(fi.node):
+        if isinstance(lp, ast.For) and isinstance(lp.target, ast.Tuple) and len(lp.target.elts) == 3 and \
+                all(isinstance(e, ast.Name) for e in lp.target.elts) and isinstance(lp.iter, ast.Call):
+            FILES.add(lp.target.elts[2].id)
+            DIRNAME.add(lp.target.elts[0].id)
     for lp in ast.walk(fi.node):
         if not (isinstance(lp, ast.For) and isinstance(lp.target, ast.Name)):
             continue
-        if not (isinstance(lp.iter, ast.Name) and lp.iter.id in ('files',) or
-                (isinstance(lp.iter, ast.Name) and any('files' == norm(v) for v in la.get(lp.iter.id, [])))):
+        if not (isinstance(lp.iter, ast.Name) and lp.iter.id in FILES or
+                (isinstance(lp.iter, ast.Name) and any(norm(v) in FILES for v in la.get(lp.iter.id, [])))):
             continue
         fv = lp.target.id
         for n in ast.walk(lp):
@@ -591,7 +598,7 @@ def r8_which_files_are_test_files(ctx, rep, R='C14.R8'):
         if src.endswith('tests_pattern'):
             if 'strip_py_ext' in argsrc:
                 return 'A'
-            if 'dirname' in argsrc:
+            if any(d_ in argsrc for d_ in DIRNAME):
                 return 'D1'
         return None
     exp0 = expander(fi.node, lambda v: True)
